@@ -75,7 +75,7 @@ ADDED = {
  "C04": " Later additions: carry-chain cells (full cross product of the coordinates 2^k-1, 2^k, 10 1..1 in every base cell) and 32 spread interior cells per base cell at every depth." + SEQ,
  "C05": " Later additions: radius-relative centres, centres at the narrowest cells of the start depth (exhaustive search), deep-large (1e4..1e5 cells) and deep-huge (radius / cell > 5e4, ~1e6 cells) strata. The former known finding KF-1 is repaired (fix f1d7abd) and no longer consulted." + SEQ,
  "C06": " Later additions: the deep-large / deep-huge / narrowest-cell strata of C05." + SEQ,
- "C07": " Later additions: operand SIZE SWEEP (every n = 1..520 / 4000 for 7 operand shapes), merge-cascade operands (every cascade length 1..29), coverage-sized operands." + SEQ,
+ "C07": " Later additions: operand SIZE SWEEP (every n = 1..520 / 4000 for 7 operand shapes), merge-cascade operands (every cascade length 1..29), coverage-sized operands, LONG operands of 2^k-1, 2^k, 2^k+1 entries (k = 10..15 / 20) incl. shapes where the long operand starts first." + SEQ,
  "C08": " Later additions: the size sweep, merge cascades and coverage-sized operands of C07 with mixed flags." + SEQ,
  "C09": " Later additions: size sweep and merge cascades through all views." + SEQ,
  "C10": " Later additions: EVERY polar ring (last index, first of the next, one generic index) of depths 12..18 (quick) / 14..29 (thorough); carry-chain NESTED cells." + SEQ,
@@ -83,12 +83,12 @@ ADDED = {
  "C12": " Later additions: deep polygons (depths to 29), longitude representations (+-2pi, +6pi, unwrapped across lon = 0)." + SEQ,
  "C13": " Later additions: deep tier (depths 9..29, ellipses 0.3..31 cells across), deep-large tier (thousands of cells across). KF-1 repaired (fix f1d7abd)." + SEQ,
  "C14": " Later additions: delta_depth 5, 8, 9, 13, 17 and a sweep of every delta_depth 4..12 / 16; carry-chain cells; the two public direction helpers of lib.rs checked directly and exhaustively on every border cell x outward neighbour." + SEQ,
- "C15": " Later additions: bulk pushes (~9000), one-tile sets, re-push SIZE SWEEP (a whole tile then every n = 1..340 / 4200 of its cells again), merge-cascade sequences (every cascade length 1..29).",
+ "C15": " Later additions: bulk pushes (~9000), one-tile sets, re-push SIZE SWEEP (a whole tile then every n = 1..340 / 4200 of its cells again), merge-cascade sequences (every cascade length 1..29), long scattered histories of 2^k-1..2^k+1 pushes (k = 10..16 / 20).",
  "C16": " Later additions: claim-2 radii up to pi; claim 3 at the NARROWEST cells of depths 0..6 / 0..8 located by exhaustive search; carry-chain cells. KF-1 repaired (fix f1d7abd)." + SEQ,
  "C17": " Later additions: exponent sweep (sphere and plane), integer degrees, float literals of the sources." + SEQ,
  "C18": " Later additions: all ordered pairs of coordinates taken from the integer literals of the current sources; every pair of values of a 12-bit window at the same offset in i and j." + SEQ,
  "C19": " Later additions: weighted mean checked for every position (grid coordinates from the reference projection), carry-chain cells." + SEQ,
- "C20": " Later additions: mutual-exclusion probe (a thread held inside the constructor / at the end of the initialisation closure, a free-running second caller must block); a SAMPLED first-use stress in fresh processes (15 free-running threads, labelled non-exhaustive: corroboration for hook-free windows only).",
+ "C20": " Later additions: mutual-exclusion probe (a thread held inside the constructor / at the end of the initialisation closure, a free-running second caller must block); a SAMPLED first-use stress in fresh processes (15 free-running threads on one table at a time; pairs of threads making the first use of the Layer and of the cell-size constants of one depth with a stagger, watchdog against calls that never return; labelled non-exhaustive: corroboration for hook-free windows only).",
 }
 
 for k, v in ADDED.items():
